@@ -83,7 +83,8 @@ func mkSchedBody(tmp string, threads []string, ttl uint32, age int) func() vsync
 					// The configured number of failures (3) has been reached, whatever
 					// their interleaving: the next attempt, correct password included,
 					// is refused.
-					if st, _, _, _ := home.VerifC12Login("192.0.2.9:2001", home.VerifC12User, home.VerifC12Password, nil); st != 429 {
+					st, _, _, _ := home.VerifC12Login("192.0.2.9:2001", home.VerifC12User, home.VerifC12Password, nil)
+					if st != 429 {
 						return fmt.Sprintf("not-blocked-after-concurrent-failures: %d failed logins from one address have completed (limit 3); the next login with the correct password answers HTTP %d, want 429", nBad, st)
 					}
 				}
